@@ -365,9 +365,12 @@ ObjPartItems(T, objs) ==
 (* children in the recorded calculation graph of the PRE-change topology.   *)
 (* RecordsAll = TRUE: the graph records exactly what is read (the repaired  *)
 (* behaviour).                                                              *)
+(* Recomputing a dictionary attribute replaces all its entries: what reads any entry is impacted as soon as  *)
+(* one entry is (ExplainableObject.values_replaced_together_with_me).                                       *)
+SiblingEntries(R, X) == {s \in DOMAIN R : \E x \in X : x[3] # NoKey /\ s[1] = x[1] /\ s[2] = x[2]}
 RECURSIVE Descend(_, _)
 Descend(R, X) ==
-    LET N == X \cup {s \in DOMAIN R : R[s] \cap X # {}}
+    LET N == X \cup {s \in DOMAIN R : R[s] \cap X # {}} \cup SiblingEntries(R, X)
     IN  IF N = X THEN X ELSE Descend(R, N)
 
 (* longest-path depth of every descendant, by rounds *)
